@@ -3,6 +3,8 @@
 undo the change, and record which checks caught it.   usage: seedrun.py [seed-id ...] [--props C07,C09] [--tier quick]"""
 import json, os, subprocess, sys, time
 VERIF = os.path.dirname(os.path.dirname(os.path.abspath(__file__)))
+REPO = os.environ.get("VP_RUN_REPO") or os.environ.get("VERIF_REPO") or "/repo"
+os.environ["VERIF_REPO"] = REPO
 args = [a for a in sys.argv[1:] if not a.startswith("--")]
 props_override = None
 tier = "quick"
@@ -23,8 +25,8 @@ for sid in seeds:
     props = [p for p in props if p in claimed]
     if not props:
         print(sid, "no claimed check for", meta["property"]); continue
-    assert subprocess.run(["git", "-C", "/repo", "status", "--porcelain", "--untracked-files=no"], capture_output=True, text=True).stdout.strip() == "", "/repo dirty"
-    subprocess.run(["git", "-C", "/repo", "apply", os.path.join(d, "patch.diff")], check=True)
+    assert subprocess.run(["git", "-C", REPO, "status", "--porcelain", "--untracked-files=no"], capture_output=True, text=True).stdout.strip() == "", REPO + " dirty"
+    subprocess.run(["git", "-C", REPO, "apply", os.path.join(d, "patch.diff")], check=True)
     res = {}
     try:
         for p in props:
@@ -36,6 +38,6 @@ for sid in seeds:
             if r.returncode == 2:
                 print(r.stderr[-800:])
     finally:
-        subprocess.run(["git", "-C", "/repo", "checkout", "--", "."], check=True)
+        subprocess.run(["git", "-C", REPO, "checkout", "--", "."], check=True)
     out[sid] = res
 json.dump(out, open(os.path.join(VERIF, "work", "seedrun_last.json"), "w"), indent=1)
